@@ -1203,10 +1203,14 @@ class PendingClassDef(_PendingCompoundStmt[ClassDef]):
         if metaclass_expr is None:
             metaclass_expr = Name(id="type", ctx=Load())
 
+        # The class name is bound after the class body has run (the body
+        # may still refer to an earlier binding of the name), so the new
+        # class object is kept in a tmp until its members are loaded.
+        tmp_class_name = Name(id=ol_name(OL_CLASS_TMP))
         return_list.append(
-            self.nsp.get_assign(
-                self.node.name,
-                Call(
+            NamedExpr(
+                target=tmp_class_name,
+                value=Call(
                     func=metaclass_expr,
                     args=[
                         Constant(value=self.node.name),
@@ -1222,7 +1226,7 @@ class PendingClassDef(_PendingCompoundStmt[ClassDef]):
         class_body.append(
             NamedExpr(  # one step of injecting the __class__ cell
                 target=Name(id="__class__", ctx=Store()),
-                value=self.nsp.get_load_name(self.node.name),
+                value=tmp_class_name,
             )
         )
         class_body.append(
@@ -1260,7 +1264,7 @@ class PendingClassDef(_PendingCompoundStmt[ClassDef]):
             elt=Call(
                 func=Name(id="setattr", ctx=Load()),
                 args=[
-                    self.nsp.get_load_name(self.node.name),
+                    tmp_class_name,
                     Name(id=OL_CLASS_MEMBER_NAME, ctx=Load()),
                     Name(id=OL_CLASS_MEMBER_VALUE, ctx=Load()),
                 ],
@@ -1295,17 +1299,10 @@ class PendingClassDef(_PendingCompoundStmt[ClassDef]):
         )
         return_list.append(load_class)
 
+        class_value: expr = tmp_class_name
         for decorator in reversed(class_decorators):
-            return_list.append(
-                self.nsp.get_assign(
-                    self.node.name,
-                    Call(
-                        func=decorator,
-                        args=[self.nsp.get_load_name(self.node.name)],
-                        keywords=[],
-                    ),
-                )
-            )
+            class_value = Call(func=decorator, args=[class_value], keywords=[])
+        return_list.append(self.nsp.get_assign(self.node.name, class_value))
         return return_list
 
 
